@@ -41,6 +41,7 @@ static struct scfg
     int trigger;
     long camfail, stofail;
     long shapefail; // the camera's get_shape fails when frame `shapefail` is next (first acquisition only), -1 = never
+    int vary; // the shape reported WITH a frame differs from get_shape on odd frames (same bytes: dims swapped, u16-family type varied)
     long setfail_at, setfail_n; // the camera's set fails on its calls number setfail_at .. setfail_at+setfail_n-1 (counted per camera), -1 = never
     int slow, pace;
     int camstop; // the camera's stop takes this many extra scheduling steps (a real camera's stop may block for a while)
@@ -326,11 +327,20 @@ c_frame(struct Camera* c, void* im, size_t* nbytes, struct ImageInfo* info)
     for (size_t i = 0; i < n; i++)
         ((uint8_t*)im)[i] = pix(s, epoch, hw, i);
     info->shape = m->shape;
+    if (SC[s].vary && (hw & 1)) {
+        // what the camera reports for THIS frame: the same number of bytes, other dimensions and (2-byte types) another type
+        uint32_t w = m->shape.dims.width, h = m->shape.dims.height;
+        info->shape.dims.width = h;
+        info->shape.dims.height = w;
+        info->shape.strides = (typeof(info->shape.strides)){ 1, 1, (int64_t)h, (int64_t)w * h };
+        if (bytes_of_type(m->shape.type) == 2)
+            info->shape.type = (hw & 2) ? SampleType_u12 : SampleType_u10;
+    }
     info->hardware_frame_id = hw;
     info->hardware_timestamp = hw;
     *nbytes = n;
-    ev("{\"e\":\"CamFrame\",\"s\":%d,\"hd\":%d,\"hw\":%ld,\"w\":%u,\"h\":%u,\"ty\":\"%s\",\"tag\":%u}", s, m->h, (long)hw, m->shape.dims.width,
-       m->shape.dims.height, tyname(m->shape.type), tag_of((const uint8_t*)im, n));
+    ev("{\"e\":\"CamFrame\",\"s\":%d,\"hd\":%d,\"hw\":%ld,\"w\":%u,\"h\":%u,\"ty\":\"%s\",\"tag\":%u}", s, m->h, (long)hw, info->shape.dims.width,
+       info->shape.dims.height, tyname(info->shape.type), tag_of((const uint8_t*)im, n));
     return Device_Ok;
 }
 
@@ -882,6 +892,7 @@ main(int argc, char** argv)
                 else if (!strcmp(k, "trigger")) SC[s].trigger = atoi(v);
                 else if (!strcmp(k, "camfail")) SC[s].camfail = atol(v);
                 else if (!strcmp(k, "shapefail")) SC[s].shapefail = atol(v);
+                else if (!strcmp(k, "vary")) SC[s].vary = atoi(v);
                 else if (!strcmp(k, "setfail")) SC[s].setfail_at = atol(v);
                 else if (!strcmp(k, "setfailn")) SC[s].setfail_n = atol(v);
                 else if (!strcmp(k, "stofail")) SC[s].stofail = atol(v);
